@@ -28,15 +28,20 @@ pub struct Opts {
   /// write over an existing, longer file with --force
   pub overwrite: bool,
   pub files: Vec<(String, Vec<u8>)>,
+  /// last component of the input path: the default name of the torrent (empty = "in")
+  pub input_name: String,
 }
 
 impl Opts {
+  fn input(&self) -> &str {
+    if self.input_name.is_empty() { "in" } else { &self.input_name }
+  }
   fn to_json(&self) -> Value {
     json!({
       "announce": self.announce, "tiers": self.tiers, "comment": self.comment, "source": self.source,
       "nodes": self.nodes.iter().map(|n| n.0.clone()).collect::<Vec<_>>(), "update_url": self.update_url, "name": self.name,
       "p": self.p, "private": self.private, "md5": self.md5, "no_created_by": self.no_created_by, "no_creation_date": self.no_creation_date,
-      "single": self.single, "stdout": self.stdout, "overwrite": self.overwrite,
+      "single": self.single, "stdout": self.stdout, "overwrite": self.overwrite, "input_name": self.input(),
       "files": self.files.iter().map(|(n, d)| json!([n, hex(d)])).collect::<Vec<_>>(),
     })
   }
@@ -59,6 +64,7 @@ impl Opts {
       single: b("single"),
       stdout: b("stdout"),
       overwrite: b("overwrite"),
+      input_name: s("input_name").unwrap_or_default(),
       files: v.get("files")?.as_array()?.iter().filter_map(|f| Some((f.get(0)?.as_str()?.to_string(), crate::model::unhex(f.get(1)?.as_str()?)?))).collect(),
     })
   }
@@ -108,6 +114,8 @@ fn gen(rng: &mut Rng) -> Opts {
   let texts = ["hello", "two words", "ünï cödé 日本", "a&b=c", "", "tab\there", "quote\"s", "back\\slash", "😀"];
   let nodes = ["router.example.com:6881", "x.org:0", "1.2.3.4:65535", "203.0.113.7:1", "[2001:db8::1]:80", "[::1]:7", "[::ffff:1.2.3.4]:9", "[2001:db8:85a3::8a2e:370:7334]:443"];
   let mut o = Opts::default();
+  // the default name is the last component of the input path exactly as it is: dots, spaces and all
+  o.input_name = rng.pick(&["in", "in", "data.bin", "v1.2", "album.2024", "a b.tar.gz", "ünï.côde.d", "UPPER.Case"]).to_string();
   let pick = |rng: &mut Rng, xs: &[&str]| Some(xs[rng.below(xs.len() as u64) as usize].to_string());
   if rng.chance(1, 2) {
     o.announce = pick(rng, &urls);
@@ -183,7 +191,7 @@ fn materialise(sb: &Sandbox, o: &Opts, dir: &str, reverse: bool) {
 
 fn observe(ctx: &Ctx, o: &Opts) -> Obs {
   let sb = Sandbox::new(&ctx.work, "c05");
-  materialise(&sb, o, "run1/in", false);
+  materialise(&sb, o, &format!("run1/{}", o.input()), false);
   if o.overwrite {
     // a longer file from an earlier run is in the way
     sb.write("run1/o.torrent", &b"d7:comment5:stale4:infod6:lengthi0eee".repeat(200));
@@ -192,7 +200,7 @@ fn observe(ctx: &Ctx, o: &Opts) -> Obs {
   // (zone names need the system's tz database, POSIX strings do not)
   let tz = ["UTC", "Asia/Tokyo", "America/New_York", "JST-9", "EST5", "<+14>-14", "<-11>11"][(o.p as usize + o.files.len() + o.tiers.len()) % 7];
   let t0 = now();
-  let out = Cmd::args_owned(&ctx.imdl, o.args("in", if o.stdout { "-" } else { "o.torrent" })).cwd(&sb.path("run1")).env("TZ", tz).run();
+  let out = Cmd::args_owned(&ctx.imdl, o.args(o.input(), if o.stdout { "-" } else { "o.torrent" })).cwd(&sb.path("run1")).env("TZ", tz).run();
   let t1 = now();
   let bytes = if o.stdout { out.stdout.clone() } else { std::fs::read(sb.path("run1/o.torrent")).unwrap_or_default() };
   let mut rerun = None;
@@ -201,10 +209,10 @@ fn observe(ctx: &Ctx, o: &Opts) -> Obs {
     let mut o2 = o.clone();
     o2.no_creation_date = true;
     o2.stdout = false;
-    materialise(&sb, &o2, "run2/in", false);
-    materialise(&sb, &o2, "run3/in", true);
-    let a = Cmd::args_owned(&ctx.imdl, o2.args("in", "o.torrent")).cwd(&sb.path("run2")).run();
-    let b = Cmd::args_owned(&ctx.imdl, o2.args("in", "o.torrent")).cwd(&sb.path("run3")).run();
+    materialise(&sb, &o2, &format!("run2/{}", o.input()), false);
+    materialise(&sb, &o2, &format!("run3/{}", o.input()), true);
+    let a = Cmd::args_owned(&ctx.imdl, o2.args(o.input(), "o.torrent")).cwd(&sb.path("run2")).run();
+    let b = Cmd::args_owned(&ctx.imdl, o2.args(o.input(), "o.torrent")).cwd(&sb.path("run3")).run();
     if a.ok() && b.ok() {
       rerun = Some((std::fs::read(sb.path("run2/o.torrent")).unwrap_or_default(), std::fs::read(sb.path("run3/o.torrent")).unwrap_or_default()));
     } else {
@@ -247,7 +255,7 @@ fn spec_check(o: &Opts, ob: &Obs) -> Option<String> {
   if let Some(d) = eq("encoding", get_str(&v, "encoding"), Some("UTF-8")) {
     return Some(d);
   }
-  let want_name = o.name.clone().unwrap_or("in".into());
+  let want_name = o.name.clone().unwrap_or(o.input().to_string());
   if let Some(d) = eq("name", get_str(info, "name"), Some(&want_name)) {
     return Some(d);
   }
@@ -322,7 +330,7 @@ fn model_line(o: &Opts, v: &B) -> Option<String> {
     oh(&o.source),
     o.nodes.iter().map(|n| format!("{}:{}", h(&n.1), n.2)).collect::<Vec<_>>().join(";"),
     oh(&o.update_url),
-    h(&o.name.clone().unwrap_or("in".into())),
+    h(&o.name.clone().unwrap_or(o.input().to_string())),
     o.p,
     o.private as u8,
     o.no_created_by as u8,
